@@ -389,27 +389,43 @@ struct DetModel {
     std::tuple<size_t, double> sample(size_t s, size_t a) const { return sampleSR(s, a); }   // the name DynaQ::batchUpdateQ calls
 };
 
-static void case_dynab(Rng & rng, const std::string & tier) {
+static void case_dynab(Rng & rng, const std::string & tier, int starMode = -1) {
     Params p = drawParams(rng, tier, false);
+    bool star = starMode < 0 ? rng.coin(1, 3) : starMode != 0;
+    if (star && p.S < 2) p.S = 2;
+    if (star && p.ugly) { p.g = 0.5; p.ugly = false; }
     DetModel m{p.S, p.A, p.g, {}, randTable(rng, p.S, p.A, 3)};
     m.next.assign(p.S, std::vector<size_t>(p.A));
     for (auto & row : m.next) for (auto & x : row) x = rng.below(p.S);
-    M::DynaQ<DetModel> d(m, p.alpha, 1);
     std::vector<std::pair<size_t, size_t>> vis;
-    int nv = (int)rng.range(1, (long)(p.S * p.A));
-    for (int i = 0; i < nv; ++i) {
-        size_t s = rng.below(p.S), a = rng.below(p.A);
-        d.stepUpdateQ(s, a, m.next[s][a], m.rew(s, a));
-        if (std::find(vis.begin(), vis.end(), std::make_pair(s, a)) == vis.end()) vis.emplace_back(s, a);
+    double alpha = star ? 1.0 : p.alpha;
+    if (star) {
+        // layered deterministic MDP: every action leads to a later state, the last state is absorbing with reward 0;
+        // one backward sweep with step size 1 then leaves the table EXACTLY at Q* (clause 2: the planning batches must keep it)
+        for (size_t s = 0; s + 1 < p.S; ++s) for (size_t a = 0; a < p.A; ++a) m.next[s][a] = (size_t)rng.range((long)s + 1, (long)p.S - 1);
+        for (size_t a = 0; a < p.A; ++a) { m.next[p.S - 1][a] = p.S - 1; m.rew(p.S - 1, a) = 0.0; }
     }
-    Line l; l << "C11" << "dynab" << p.S << p.A << p.g << p.alpha;
+    M::DynaQ<DetModel> d(m, alpha, 1);
+    if (star) {
+        for (size_t s = p.S - 1; s-- > 0; ) for (size_t a = 0; a < p.A; ++a) { d.stepUpdateQ(s, a, m.next[s][a], m.rew(s, a)); vis.emplace_back(s, a); }
+        alpha = pickD(rng, {1.0, 0.5, 0.25, 0.125});
+        d.setLearningRate(alpha);
+    } else {
+        int nv = (int)rng.range(1, (long)(p.S * p.A));
+        for (int i = 0; i < nv; ++i) {
+            size_t s = rng.below(p.S), a = rng.below(p.A);
+            d.stepUpdateQ(s, a, m.next[s][a], m.rew(s, a));
+            if (std::find(vis.begin(), vis.end(), std::make_pair(s, a)) == vis.end()) vis.emplace_back(s, a);
+        }
+    }
+    Line l; l << "C11" << "dynab" << p.S << p.A << p.g << alpha;
     for (auto & row : m.next) for (auto x : row) l << x;
     putTable(l, m.rew); putTable(l, d.getQFunction());
     l << (size_t)vis.size(); for (auto [s, a] : vis) l << s << a;
     int n = std::min(p.maxSteps, 60); l << n;
     for (int k = 0; k < n; ++k) { d.batchUpdateQ(); putTable(l, d.getQFunction()); }
     l.emit();
-    std::printf("#stat dynab 1\n");
+    std::printf("#stat dynab%s 1\n", star ? "-qstar" : "");
 }
 
 // ---------------------------------------------------------------- Dyna2 (two SARSAL learners sharing traces)
@@ -421,12 +437,14 @@ static void case_dyna2(Rng & rng, const std::string & tier) {
     for (auto & row : m.next) for (auto & x : row) x = rng.below(p.S);
     unsigned N = (unsigned)rng.range(1, 4);
     M::Dyna2<DetModel> d(m, p.alpha, p.lam, p.tol, N);
+    double lamT = p.lam;
+    if (rng.coin(1, 3)) { lamT = p.ugly ? pickD(rng, {0.0, 0.9, 0.3}) : pickD(rng, {0.0, 0.25, 0.5, 1.0}); d.setTransientLambda(lamT); }
     // deterministic internal policy so that batchUpdateQ is a function of its argument
     AI::Matrix2D pol = AI::Matrix2D::Zero(p.S, p.A);
     std::vector<size_t> act(p.S);
     for (size_t s = 0; s < p.S; ++s) { act[s] = rng.below(p.A); pol(s, act[s]) = 1.0; }
     d.setInternalPolicy(new M::Policy(pol));
-    Line l; l << "C11" << "dyna2" << p.S << p.A << p.g << p.alpha << p.lam << p.tol << (size_t)N;
+    Line l; l << "C11" << "dyna2" << p.S << p.A << p.g << p.alpha << p.lam << lamT << p.tol << (size_t)N;
     for (auto & row : m.next) for (auto x : row) l << x;
     putTable(l, m.rew);
     for (auto a : act) l << a;
